@@ -17,7 +17,7 @@ EXPLANATION = (
     "status conversions between DeletionStatus and DeletionStatusMutation compose to the identity on kinds; (R03.3) decode "
     "grouping — a Node op flushes the previous member, is rejected if the member already occurred, and key-value / "
     "SetMaxVersion ops only ever modify the current member delta (None => error); (R03.4) heartbeat provenance = C05/R05.3 + "
-    "C11 digest pairing; (R03.5) SetMaxVersion carries the sender copy's max version = C14/R14.1b. 'Never run ahead of the "
+    "C11 digest pairing; (R03.5) SetMaxVersion carries the sender copy's max version = C14/R14.1b; (R03.6 = C08/R08.8) decoded values and written bytes flow only through reviewed value-preserving calls (no canonicalisation, case folding, trimming on either side of the wire). 'Never run ahead of the "
     "owner' is an induction over histories and is NOT decided.")
 TRUSTED = ["String/clone semantics"]
 ASSUMPTIONS = ["every ChitchatId is used by at most one incarnation"]
